@@ -3,6 +3,7 @@ import XModel.Opt
 import XModel.Argmin
 import XModel.OptNum
 import XModel.OptMaxStep
+import XModel.OptBest3
 /-! Line-protocol suite `opt`: trace acceptance for `Optimize.solve / step / reload`.
     One line = one API call with the state the implementation was in before the call, the recorded
     user-function table and the solver's choice of evaluation points (the numerics are an oracle);
@@ -197,10 +198,7 @@ def step (j : Json) : Json :=
       let its := ((fieldArr call "its").bind (·.mapM iterOfJson)).getD []
       -- take_best: the reload index is np.argmin over the penalties logged during the call
       let tb : Option Nat := match (field call "pens").bind vecOfJson, (field call "log_start").bind (fun v => v.getNat?.toOption) with
-        | some pens, some start =>
-          if pens.isEmpty then none else
-          let i := Argmin.argmin pens
-          if i + 1 = pens.length then none else some (i + start)
+        | some pens, some start => Opt.takeBestArg pens start    -- the rule `C15_take_best_*_branch` are about
         | _, _ => none
       let res : Except Err Unit × St Float :=
         if kind == "solve" then solve c its tb s0
